@@ -22,17 +22,33 @@ import (
 
 const c18DialInterval = 2 * time.Millisecond
 
-// Another dial hook that refuses, next to the overloader. Only the positions in which the
-// unchanged plugin keeps its books are generated; the other two are left out because they leak
-// slots on the unchanged tree (reported, not asserted here):
-//   - a FIRST dial refused by a hook AFTER the overloader: the overloader has taken a slot, Peer.Dial
+// Another dial hook that refuses, next to the overloader. Two of the four (stage, position)
+// combinations are listed known findings: while a key is listed its position is left out of the
+// generated ones (and counted as excluded); when it is not listed the position is generated and
+// asserted like the others. TestC18KnownProbes reproduces both with fixed histories.
+//   - K1, a FIRST dial refused by a hook AFTER the overloader: the overloader has taken a slot, Peer.Dial
 //     drops the connection without running the disconnect hooks (ServeConn closes the session), so
 //     the slot of every refused attempt is lost;
-//   - a REDIAL refused by a hook BEFORE the overloader until the budget is exhausted: socket.Reset has
+//   - K2, a REDIAL refused by a hook BEFORE the overloader until the budget is exhausted: socket.Reset has
 //     dropped the session swap (the overloader's mark), the overloader's PostDial(isRedial) is never
 //     reached, and the final PostDisconnect finds no mark.
-var c18RejectPositions = []string{"before"}
-var c18RedialRejectPositions = []string{"after"}
+const (
+	c18KeyLaterHook    = "C18:dial-side:slot-lost-when-later-dial-hook-refuses"
+	c18KeyRedialBefore = "C18:dial-side:slot-lost-when-redials-refused-before-overloader"
+)
+
+// c18Positions returns the positions of the refusing hook that are generated: both, minus the
+// one that a listed known finding covers.
+func c18Positions(rec *vt.Rec, key, knownPos string) []string {
+	if vt.IsKnown(key) {
+		rec.Exclude(key)
+		if knownPos == "after" {
+			return []string{"before"}
+		}
+		return []string{"after"}
+	}
+	return []string{"before", "after"}
+}
 
 // c18DialObs is registered AFTER the overloader: when it has seen a hook for a session, the
 // overloader's hook of the same stage has already run (quiescent point for the model).
@@ -122,7 +138,7 @@ type c18DialSess struct {
 }
 
 func TestC18DialSide(t *testing.T) {
-	rec := vt.NewRec(t, "C18", "dial-side", "DIALING peer with overloader.New{MaxConn:N} (N 1-3) as plugin and RedialTimes in {0, 2, unlimited} (interval 2 ms) against a harness-owned loopback listener in front of a serving peer; rapid state machine: dial (expected verdict from the integer model: admitted iff now < N, else refused with the overload status - with an unlimited budget a refused dial keeps retrying, so there the dial is started while full, must not be admitted, and is admitted once a slot was freed), kill the connection of an admitted session and wait for its redial (PostDial isRedial=true observed; with budget 0 the session ends), refuse new connections and kill one session's connection so that its redial budget is exhausted (session ends), outage of the whole listener (budget exhausted: all sessions end; unlimited: all redial), a dial refused by another dial hook placed before the overloader (consumes no slot; finite budgets), a session whose redial attempts are all refused by another dial hook placed after the overloader (session ends), close an admitted session locally, Update(MaxConn); quiescent points are taken from a recording plugin placed after the overloader; invariant after every step: CountSession == admitted live sessions of the model, each can complete a call, a dial is admitted iff model.now < N; at the end every session is ended and exactly N further dials are admitted, the next one is not (each ended session returned its slot exactly once); non-trivial = a session that went through a redial ended, or a refusal was followed by a later dial; distinct by history")
+	rec := vt.NewRec(t, "C18", "dial-side", "DIALING peer with overloader.New{MaxConn:N} (N 1-3) as plugin and RedialTimes in {0, 2, unlimited} (interval 2 ms) against a harness-owned loopback listener in front of a serving peer; rapid state machine: dial (expected verdict from the integer model: admitted iff now < N, else refused with the overload status - with an unlimited budget a refused dial keeps retrying, so there the dial is started while full, must not be admitted, and is admitted once a slot was freed), kill the connection of an admitted session and wait for its redial (PostDial isRedial=true observed; with budget 0 the session ends), refuse new connections and kill one session's connection so that its redial budget is exhausted (session ends), outage of the whole listener (budget exhausted: all sessions end; unlimited: all redial), a dial refused by another dial hook placed before or after the overloader (consumes no slot; finite budgets), a session whose redial attempts are all refused by another dial hook placed before or after the overloader (session ends) - of these four the two positions covered by a listed known finding are left out while it is listed (counted in excluded_known), close an admitted session locally, Update(MaxConn); quiescent points are taken from a recording plugin placed after the overloader; invariant after every step: CountSession == admitted live sessions of the model, each can complete a call, a dial is admitted iff model.now < N; at the end every session is ended and exactly N further dials are admitted, the next one is not (each ended session returned its slot exactly once); non-trivial = a session that went through a redial ended, or a refusal was followed by a later dial; distinct by history")
 	rapid.Check(t, func(t *rapid.T) {
 		vt.Init()
 		newLib()
@@ -398,7 +414,7 @@ func TestC18DialSide(t *testing.T) {
 				if budget < 0 {
 					t.Skip("unlimited budget: the dial would retry for ever")
 				}
-				pos := rapid.SampledFrom(c18RejectPositions).Draw(t, "pos")
+				pos := rapid.SampledFrom(c18Positions(rec, c18KeyLaterHook, "after")).Draw(t, "pos")
 				rj := rejBefore
 				if pos == "after" {
 					rj = rejAfter
@@ -419,7 +435,7 @@ func TestC18DialSide(t *testing.T) {
 				if len(live) == 0 || budget <= 0 {
 					t.Skip("needs a finite redial budget and a session")
 				}
-				pos := rapid.SampledFrom(c18RedialRejectPositions).Draw(t, "pos")
+				pos := rapid.SampledFrom(c18Positions(rec, c18KeyRedialBefore, "before")).Draw(t, "pos")
 				rj := rejBefore
 				if pos == "after" {
 					rj = rejAfter
@@ -487,4 +503,164 @@ func TestC18DialSide(t *testing.T) {
 			rec.Sample(map[string]interface{}{"budget": budget, "history": hist})
 		}
 	})
+}
+
+// ---- deterministic probes of the listed known findings -----------------------------------
+
+type c18Probe struct {
+	w                   *vt.World
+	ts                  *tcpServer
+	cli                 erpc.Peer
+	obs                 *c18DialObs
+	rejBefore, rejAfter *c18DialReject
+}
+
+// c18NewProbe builds the dial-side setup; nil when the loopback listener cannot be had.
+func c18NewProbe(limit int32, budget int32) *c18Probe {
+	vt.Init()
+	newLib()
+	p := &c18Probe{w: vt.NewWorld()}
+	srv := p.w.Peer(erpc.PeerConfig{})
+	registerLib(srv)
+	p.ts = &tcpServer{peer: srv}
+	if err := p.ts.listen(); err != nil {
+		p.w.Close()
+		return nil
+	}
+	p.obs = &c18DialObs{redials: map[interface{}]int{}, disconnects: map[interface{}]int{}}
+	p.rejBefore, p.rejAfter = &c18DialReject{name: "c18rejbefore"}, &c18DialReject{name: "c18rejafter"}
+	p.cli = p.w.Peer(erpc.PeerConfig{RedialTimes: budget, RedialInterval: c18DialInterval, DialTimeout: 2 * time.Second},
+		p.rejBefore, overloader.New(overloader.LimitConfig{MaxConn: limit}), p.rejAfter, p.obs)
+	return p
+}
+
+func (p *c18Probe) close() {
+	p.ts.down()
+	p.w.Close()
+}
+
+// dial returns (session, status, false) or (nil, nil, true) when Dial did not return in time.
+func (p *c18Probe) dial() (erpc.Session, *erpc.Status, bool) {
+	var s erpc.Session
+	var st *erpc.Status
+	if !vt.Returns(func() { s, st = p.cli.Dial(p.ts.addr) }) {
+		return nil, nil, true
+	}
+	return s, st, false
+}
+
+// ended waits until the session is over and its disconnect hooks have run.
+func (p *c18Probe) ended(s erpc.Session) bool {
+	return vt.WaitClosed(s.CloseNotify()) && vt.WaitUntil(func() bool { return p.obs.disconnectsOf(s) >= 1 })
+}
+
+// c18ProbeLaterHook: N=2, budget 2; three dials admitted and closed, one dial refused by a hook
+// registered after the overloader, then a dial with no session alive. Returns the status of
+// that last dial when it was refused by the limiter ("" = not reproduced or not decidable).
+func c18ProbeLaterHook() string {
+	p := c18NewProbe(2, 2)
+	if p == nil {
+		return ""
+	}
+	defer p.close()
+	for i := 0; i < 3; i++ {
+		s, st, hung := p.dial()
+		if hung || !st.OK() {
+			return ""
+		}
+		if !vt.Returns(func() { s.Close() }) || !p.ended(s) {
+			return ""
+		}
+	}
+	atomic.StoreInt32(&p.rejAfter.armed, 1)
+	s, st, hung := p.dial()
+	atomic.StoreInt32(&p.rejAfter.armed, 0)
+	if hung || st.OK() {
+		if s != nil {
+			s.Close()
+		}
+		return ""
+	}
+	s, st, hung = p.dial()
+	if hung {
+		return ""
+	}
+	if st.OK() {
+		s.Close()
+		return ""
+	}
+	if !strings.Contains(st.String(), "overload") {
+		return ""
+	}
+	return st.String()
+}
+
+// c18ProbeRedialBefore: N=1, budget 2; a dial is admitted, its connection is killed while a hook
+// registered before the overloader refuses every redial attempt (the session ends), then a dial
+// with no session alive.
+func c18ProbeRedialBefore() string {
+	p := c18NewProbe(1, 2)
+	if p == nil {
+		return ""
+	}
+	defer p.close()
+	a, st, hung := p.dial()
+	if hung || !st.OK() {
+		return ""
+	}
+	var c net.Conn
+	if !vt.WaitUntilFor(5*time.Second, func() bool { c = c18ConnOf(p.ts, a); return c != nil }) {
+		return ""
+	}
+	atomic.StoreInt32(&p.rejBefore.armed, 2)
+	c.Close()
+	over := p.ended(a)
+	atomic.StoreInt32(&p.rejBefore.armed, 0)
+	if !over {
+		return ""
+	}
+	s, st, hung := p.dial()
+	if hung {
+		return ""
+	}
+	if st.OK() {
+		s.Close()
+		return ""
+	}
+	if !strings.Contains(st.String(), "overload") {
+		return ""
+	}
+	return st.String()
+}
+
+func TestC18KnownProbes(t *testing.T) {
+	var unlisted []string
+	rec := vt.NewRec(t, "C18", "known-probes", "deterministic reproductions of listed known findings (overloader on the dialing side next to another refusing dial hook)")
+	for _, pr := range []struct {
+		key, what, violated string
+		run                 func() string
+	}{
+		{c18KeyLaterHook,
+			"overloader on the dialing side: a first Dial admitted by the overloader and then refused by a dial hook registered after it never returns its slot (limit 2, no session alive, next dial refused)",
+			"limit 2, redial budget 2, history [dial=true close dial=true close dial=true close dial(other hook after the overloader rejects)=false dial]: the last dial was refused although no session is alive",
+			c18ProbeLaterHook},
+		{c18KeyRedialBefore,
+			"overloader on the dialing side: a session whose redials are all refused by a dial hook registered before the overloader ends without returning its slot (limit 1, no session alive, next dial refused)",
+			"limit 1, redial budget 2, history [dial=true kill(0) with every redial refused by another hook before the overloader dial]: the last dial was refused although no session is alive",
+			c18ProbeRedialBefore},
+	} {
+		got := pr.run()
+		rec.Case(pr.key, true, fmt.Sprintf("reproduced=%v", got != ""))
+		if got == "" {
+			continue
+		}
+		if vt.IsKnown(pr.key) {
+			rec.KnownFinding(pr.key, pr.what)
+			continue
+		}
+		unlisted = append(unlisted, fmt.Sprintf("C18 violated: %s: %s", pr.violated, got))
+	}
+	if len(unlisted) > 0 {
+		t.Fatalf("%s", strings.Join(unlisted, "\n"))
+	}
 }
